@@ -42,6 +42,12 @@ struct IAlgoFamily {
     virtual bool handles(const std::string &kind) const = 0;
     virtual CaseResult run(const json &c, unsigned seed) = 0;
 };
+// options of this run (from the plan), e.g. "recon": also call the path reconstruction helper
+// with explicit sources (valid use that belongs to C17, not to C11's listed entry points)
+inline json &runOptions() {
+    static json o = json::object();
+    return o;
+}
 inline std::vector<std::unique_ptr<IAlgoFamily>> &algoFamilies() {
     static std::vector<std::unique_ptr<IAlgoFamily>> v;
     return v;
